@@ -4,6 +4,10 @@
 //!    (`lean/BsVerif/Model/CmdNum.lean`, `SliceBuf.lean`) on the same request lines.
 //! O: the run itself: every panic / abort / timeout is a failing input, classified by site (`key`).
 //!
+//! The numeric conversions of the parser, the slice arithmetic and the read buffer reservation were repaired
+//! (known_findings.txt, `fixed:` lines): the model's setting is `repaired` (the default), every panic class below is a
+//! VIOLATION again (the keys stay so that a regression is named), the former witnesses stay in corpus/C08.
+//!
 //! Request lines
 //!   C08 new cmd <asfound|repaired>            session of command lines (pure parsing, in-process, catch_unwind)
 //!   C08 cmd <x|n> <xhex line>                 x: answer ok|err|panic:<cls>   n: nopanic|panic:<cls>
@@ -404,15 +408,15 @@ fn gen_slice(rng: &mut Rng, n: u64, quirks: &str, out: &mut Out, req: &mut Vec<S
             continue;
         }
         let (l, r) = (bound(rng), bound(rng));
-        // pointer slices: exact answers only inside the known array; byte counts between 64 KiB and 2^47 are not generated
-        // (whether the allocation / the ptrace reads succeed there is the environment's business)
+        // pointer slices: exact answers only inside the known array; for byte counts between 64 KiB and 2^47 whether the
+        // reservation / the ptrace reads succeed is the environment's business: only "no panic, no abort" is compared
         let mut mode = "x";
         if *kind == "ptr" {
             let (lv, rv) = (l.unwrap_or(0), r.unwrap_or(0));
             if r.is_some() && rv >= lv && *es > 0 {
                 let bytes = (*es as u128) * ((rv - lv) as u128);
                 let base_off = (*es as u128) * (lv as u128);
-                if bytes > 65536 && bytes <= (1u128 << 47) { continue; }
+                if bytes > 65536 && bytes <= (1u128 << 47) { mode = "n"; }
                 if base_off > 4096 && base_off < (1u128 << 64) && bytes < (1 << 47) { mode = "n"; }
                 if rv > len && bytes <= 65536 { mode = "n"; }
             }
@@ -504,7 +508,7 @@ pub fn run(args: &[String]) {
     let a = parse_args(args);
     install_silent_hook();
     let mut out = Out::new(&a.out);
-    let quirks = a.rest.iter().position(|x| x == "--quirks").map(|i| a.rest[i + 1].clone()).unwrap_or("asfound".into());
+    let quirks = a.rest.iter().position(|x| x == "--quirks").map(|i| a.rest[i + 1].clone()).unwrap_or("repaired".into());
     let req = match &a.replay {
         Some(f) => read_lines(f),
         None => { let mut rng = Rng::new(a.seed); gen_requests(&mut rng, a.n, &quirks, &mut out) }
